@@ -48,7 +48,7 @@ def check_model(net, bounds, ruleset, stats, rich=False):
     # of the case, so that all origins are spread over the family and a case always gets the same one
     extra = origins.ORIGINS[zlib.crc32(repr((net, bounds, tuple(ruleset))).encode()) % len(origins.ORIGINS)]
     out = []
-    for origin in dict.fromkeys(("fresh", "observed", extra)):
+    for origin in dict.fromkeys(("fresh", "observed", "gene_knocked", extra)):
         out.extend(_check_model(net, bounds, ruleset, stats, rich, origin))
     return out
 
@@ -73,11 +73,19 @@ def _check_model(net, bounds, ruleset, stats, rich=False, origin="fresh"):
         warnings.simplefilter("ignore")
         model = families.build_model(mets, rxns, rules=rules_text)
     model.objective = {model.reactions.get_by_id(oid): 1}
+    pre = set()   # genes that are already knocked out when the analyses are called
     if origin == "observed":
         # the model has been read through the public API before (copies of its parts, string forms, a solve, summaries)
         from .. import prehistory
 
         prehistory.observe_everything(model)
+    elif origin == "gene_knocked":
+        # a non-initial gene state: the first gene was knocked out (outside any context) before the analyses are called;
+        # every result is then the one of the model with that gene absent as well, and the gene stays knocked out
+        if not genes:
+            return []
+        model.genes.get_by_id(genes[0]).knock_out()
+        pre = {genes[0]}
     elif origin != "fresh":
         from .. import origins
 
@@ -91,13 +99,19 @@ def _check_model(net, bounds, ruleset, stats, rich=False, origin="fresh"):
     cache = {}
 
     def exact(closed):
-        key = frozenset(closed)
+        key = frozenset(closed) | base_closed
         if key not in cache:
             cache[key] = fba.optimum(closed=key)[:2]
         return cache[key]
 
     def closed_by_genes(gs):
-        return {rid for rid, t in trees.items() if t is not None and not ref_gpr.evaluate(t, set(gs))}
+        return {rid for rid, t in trees.items() if t is not None and not ref_gpr.evaluate(t, set(gs) | pre)}
+
+    base_closed = frozenset(closed_by_genes(())) if pre else frozenset()
+    if pre:
+        st0, z0 = exact(())
+        if st0 != OPT:
+            return []
 
     def mk(fn, **kw):
         c = {"net": [list(x) for x in net], "bounds": [[_j(a), _j(b)] for a, b in bounds], "rules": list(ruleset), "fn": fn}
@@ -123,7 +137,7 @@ def _check_model(net, bounds, ruleset, stats, rich=False, origin="fresh"):
             bad(case, "rows differ from the requested combinations", f"missing {missing} duplicate {dup} extra {extra}")
             return
         for idsset, growth, status in zip(got, res["growth"], res["status"]):
-            closed = set(idsset) if entity == "reaction" else closed_by_genes(idsset)
+            closed = (set(idsset) if entity == "reaction" else closed_by_genes(idsset)) | base_closed
             if method == "fba":
                 st, z = exact(closed)
                 if st == OPT:
@@ -225,13 +239,19 @@ def _check_model(net, bounds, ruleset, stats, rich=False, origin="fresh"):
 
         ref_sol = model.optimize()
         ref_default = pfba(model)
-    for refname, refarg, refsol in (("given", ref_sol, ref_sol), ("default", None, ref_default)):
+    from cobra.core import Solution
+
+    # the same reference listed in another reaction order (e.g. computed before the model was re-ordered)
+    ref_rev = Solution(ref_sol.objective_value, ref_sol.status, ref_sol.fluxes[::-1], ref_sol.reduced_costs[::-1],
+                       ref_sol.shadow_prices[::-1])
+    for refname, refarg, refsol in (("given", ref_sol, ref_sol), ("default", None, ref_default),
+                                    ("given_reordered", ref_rev, ref_sol)):
         refd = {r: float(refsol.fluxes[r]) for r in ids}
         case = mk("single_reaction_deletion", request="none", method="linear moma", ref=refname)
         res = run(case, single_reaction_deletion, None, method="linear moma", solution=refarg)
         if res is not None:
             check_frame(case, res, [frozenset([i]) for i in ids], "reaction", "moma", refd)
-        if genes and (rich or refname == "given"):
+        if genes and (rich or refname.startswith("given")):
             case = mk("single_gene_deletion", request="none", method="linear moma", ref=refname)
             res = run(case, single_gene_deletion, None, method="linear moma", solution=refarg)
             if res is not None:
@@ -264,6 +284,16 @@ def _check_model(net, bounds, ruleset, stats, rich=False, origin="fresh"):
                 continue
             if (got - unsure) != (want - unsure):
                 bad(case, "essential set differs", f"returned {sorted(got)}, expected {sorted(want)} (undecided {sorted(unsure)})")
+    if pre:
+        # the gene state the caller had set is still there
+        case = mk("all", request="gene state afterwards")
+        for g in pre:
+            if model.genes.get_by_id(g).functional:
+                bad(case, "a gene that was knocked out before the analyses is functional afterwards", g)
+        for rid in base_closed:
+            if tuple(model.reactions.get_by_id(rid).bounds) != (0, 0):
+                bad(case, "a reaction closed by an earlier knock-out is open afterwards",
+                    f"{rid}: {model.reactions.get_by_id(rid).bounds}")
     return out
 
 
